@@ -46,8 +46,11 @@ Nodes == 1..N
 Targets == 0..N
 AllTravs == {"resolve1", "accessor", "resolve_all", "getobj", "xrefchain", "pagetree", "numtree", "nametree", "outline"}
 AllGuards == AllTravs
-\* guards the code has (pdfpage.create_pages keeps a visited set); Dev names a *missing* guard
-CodeGuards(Dev) == {"pagetree"} \cup {t \in AllGuards \ {"pagetree"} : ("No" \o t \o "Guard") \notin Dev}
+\* The guards the code has today: pdfpage.create_pages keeps a visited set; every other guard is missing as long as
+\* the corresponding named deviation is in force (known_findings/C13.json carries them as "dev": "robust:<Name>"):
+\*   Resolve1NoCycleGuard (resolve1, accessor)  ResolveAllNoGuard  GetobjNoReentryGuard  XRefChainNoGuard
+\*   NumTreeNoGuard  NameTreeNoGuard  OutlineNoGuard
+\* harness/props/c13_graphs.py computes Guards from them for the as-coded runs; Intended == AllGuards.
 
 OutSeqs == UNION {[1..k -> Targets] : k \in 0..MaxOut}
 Values == {[k |-> "ref", out |-> <<t>>] : t \in Targets} \cup {[k |-> "leaf", out |-> <<>>]}
